@@ -15,6 +15,7 @@ BB_SHARDKEYS = {"cpu": ["host"], "mem": ["region"], "net": ["dc", "host"], "disk
 F_HINT_RANGE = "C11-hint-query-hashes-range-sharded"
 F_ALIVE = "C11-alive-set-change-skips-online-shard"
 F_HW = "C11-hard-write-read-hashes-online-list"
+F_REUSE = "C11-stream-reuse-ignores-destination-key"
 NV = 128
 FULL = (1 << NV) - 1
 
@@ -429,6 +430,43 @@ def alt_builders(ck, binp, variant=None, coq_ok=False):
         ck.notes.append("alt builder cases not evaluated on the model: no model variant matches the tree")
 
 
+def stream_reuse(ck, binp, known_hits):
+    """stream destinations placed with the source row's key bytes (routing step only), direct oracle"""
+    n = 200 if ck.tier == "quick" else 3000
+    rc, out = ck.run([binp, "reuse", str(n)], timeout=900)
+    cases = []
+    for l in out.splitlines():
+        if l.startswith('{"reuse"'):
+            try:
+                cases.append(json.loads(l))
+            except ValueError:
+                pass
+    if rc != 0 or len(cases) != n:
+        ck.broken.append("harness c11 reuse failed rc=%d cases=%d: %s" % (rc, len(cases), out[-400:]))
+        return
+    classes, viol, nontriv = {}, 0, 0
+    for c in cases:
+        dk = c["dbsk"] or c["dstsk"] or []
+        sk = c["dbsk"] or c["srcsk"] or []
+        cls = "case %d, destination key %s" % (c["case"], "= source key" if dk == sk else ("none" if not dk else "differs"))
+        classes[cls] = classes.get(cls, 0) + 1
+        if sum(len(t["sids"]) for t in c["targets"] or []) < c["nshards"] and any(not p["err"] and p["sat"] for p in c["points"] or []):
+            nontriv += 1
+        for msg in c["oracle"]:
+            # signature of C11-stream-reuse-ignores-destination-key: case 3, destination key in force non-empty and not the source's
+            if msg.startswith("prune: ") and c["case"] == 3 and not c["dbsk"] and dk and dk != sk and ck.match_finding(F_REUSE):
+                known_hits[F_REUSE] = known_hits.get(F_REUSE, 0) + 1
+                if known_hits[F_REUSE] == 1:
+                    ck.known_finding(F_REUSE, "a stream result row is placed with the source's key bytes although the destination has another "
+                                     "shard key: %s | source key %s, destination key %s" % (msg[7:], c["srcsk"], c["dstsk"]))
+                continue
+            viol += 1
+            if viol <= 2:
+                ck.violation({"kind": "direct-oracle-stream-reuse", "what": msg, "case": c})
+    ck.cov["stream_reuse_cases"] = classes
+    ck.cov["stream_reuse_cases_pruned_with_matching_row"] = nontriv
+
+
 def setup():
     """pre-build the server binary used by the black-box part"""
     ck = vlib.Check(PID, "quick")
@@ -695,7 +733,7 @@ def main(ck):
     if latent:
         ck.notes.append("latent (not reachable from the parser): %d rows skipped on paren-free AND-with-alternatives trees" % latent)
     for f in ck.findings:
-        if f.get("status") == "open" and f["id"] not in known_hits:
+        if f.get("status") == "open" and f["id"] not in known_hits and f["id"] != F_REUSE:  # F_REUSE is looked for later (stream_reuse)
             ck.notes.append("open finding %s did not reproduce in this run (stale entry?)" % f["id"])
     ck.cov["known_finding_hits"] = known_hits
 
@@ -726,6 +764,7 @@ def main(ck):
     if not getattr(ck, "replay", None):
         low = next((i for i in range(NV) if mask >> i & 1), None)
         alt_builders(ck, binp, None if low is None else (bool(low & 4), bool(low & 2), bool(low & 1)), ok and evok)
+        stream_reuse(ck, binp, known_hits)
         blackbox(ck)
     ck.cov["points_routed_and_satisfying"] = sat_routed
     ck.cov["input_histogram"] = hist
